@@ -44,7 +44,7 @@ TRUSTED_BASE = [
 MANIFEST = dict(
     text="Coq theorems over a hand-written model of gc.rs / heap.rs mark+sweep / run_gc root enumeration: packed two-bit map = abstract table, mark_exact (Used iff in range and reachable, any HashMap order), mark_fuel_enough, sweep_exact, gc_preserves_live, gc_reclaims_garbage, gc_preserves_symbols, heap invariant preserved by a collection; tied to /repo by forced-collection schedules (every k-th instruction, pseudo-random) with an independent reachability traversal after every collection, and by heap snapshots replayed through the extracted model and vm_compute.",
     design="DESIGN.md section 5 C03, Appendix A.5",
-    note="roots_complete is proved for the lexical-variable accesses, ENTER, CALL/TCALL, CLOSURE and operand loads of MOV/PUSH (every address they hand to Heap::get is reachable from the root set mark_roots marks); a collection leaves the machine agreeing with the old one on everything reachable (C03_gc_agree) and leaves no dangling reference (C03_no_dangling_collect); for every instruction (MOV, PUSH, JMP, JNT, RET, HALT, and the allocating CONS, VPUSH, VARARG, ENTER, CLOSURE, CALL/TCALL of lambdas, closures, continuations and of the builtins cons not null? pair? boolean? symbol? vector? port? call/cc, under side conditions true of compiled code) one step of run_one commutes with an injective renaming of live addresses (C03_run_one_iso_all; allocation takes the first free cell, so the renaming is extended by the two fresh addresses) and a run under ANY schedule of collections ends like the schedule-free run in related states (C03_sched_unobservable_all), conditional on the collector keeping the relation, which is proved on tight worlds only; OPEN: the collector on arbitrary worlds (C03_collect_shrink_stmt, under the invariant gc_natural), the other builtins, the paths that convert a value with heap-length-dependent model fuel, roots_complete_stmt for the builtins, equality of the final converted value (model fuel depends on the heap length); schedule-unobservability of whole programs is carried by the correspondence. Axioms: theorems whose statement mentions run_one report the four standard Reals axioms via Flocq; the others are closed under the global context.",
+    note="roots_complete is proved for the lexical-variable accesses, ENTER, CALL/TCALL, CLOSURE and operand loads of MOV/PUSH (every address they hand to Heap::get is reachable from the root set mark_roots marks); a collection leaves the machine agreeing with the old one on everything reachable (C03_gc_agree) and leaves no dangling reference (C03_no_dangling_collect); for every instruction (MOV, PUSH, JMP, JNT, RET, HALT, and the allocating CONS, VPUSH, VARARG, ENTER, CLOSURE, CALL/TCALL of lambdas, closures, continuations and of the builtins cons not null? pair? boolean? symbol? vector? port? call/cc, under side conditions true of compiled code) one step of run_one commutes with an injective renaming of live addresses (C03_run_one_iso_all; allocation takes the first free cell, so the renaming is extended by the two fresh addresses) and a run under ANY schedule of collections ends like the schedule-free run in related states (C03_sched_unobservable_all), with the REAL collector: a collection on an arbitrary (not tight) world keeps the relation on the world restricted to what is reachable (C03_collect_shrink_closed, C03_reach_iso), so the schedule theorem holds with the collector hypotheses removed (C03_sched_unobservable_natural), parametric in an invariant of the machine that implies the collector's side conditions (gc_natural, reach_allocated, no_used) - that this triple is kept by every instruction is the remaining OPEN statement (C03_ready3_step_stmt); OPEN: the other builtins, the paths that convert a value with heap-length-dependent model fuel, roots_complete_stmt for the builtins, equality of the final converted value (model fuel depends on the heap length); schedule-unobservability of whole programs is carried by the correspondence. Axioms: theorems whose statement mentions run_one report the four standard Reals axioms via Flocq; the others are closed under the global context.",
     technique="Rocq/Coq proof (induction on fuel / invariants over the mark phase) + forced-collection correspondence check")
 
 
